@@ -182,6 +182,7 @@ fn counters(rt: Option<&Rt>) -> Out {
 // ---------------------------------------------------------------- job execution
 
 fn run_job(scope_ptr: *mut Scope, job: &Job, emit: &mut dyn FnMut(usize, &Out)) {
+    let mut scope_ptr = scope_ptr;
     RNG_SEED.with(|s| s.set(job.rng_seed));
     let mut rt: Option<Rt> = None;
     // SAFETY (harness): the evaluation scope borrows the compilation scope immutably; it is
@@ -217,6 +218,14 @@ fn run_job(scope_ptr: *mut Scope, job: &Job, emit: &mut dyn FnMut(usize, &Out)) 
                             }
                         }
                     }
+                })
+            }
+            Step::NewStdScope => {
+                // from here on the job works in a standard-library scope compiled just now
+                eval = None;
+                guarded(|| {
+                    scope_ptr = Box::leak(Box::new(xray::std_compilation_scope())) as *mut Scope;
+                    Out::Done
                 })
             }
             Step::CompileBare { src } | Step::CompileFresh { src } => {
